@@ -189,3 +189,12 @@ func (t *tailBuf) String() string {
 	defer t.mu.Unlock()
 	return string(t.buf)
 }
+
+// Call runs a registered worker function in this process.
+func Call(mode string, spec json.RawMessage) (json.RawMessage, error) {
+	fn, ok := registry[mode]
+	if !ok {
+		return nil, fmt.Errorf("unknown worker mode %q", mode)
+	}
+	return fn(spec)
+}
